@@ -197,7 +197,14 @@ def describe_class(cls, cmap, intern):
         out += [0]
         names = []
     out += [-3] + [intern("v:%s=%r" % (n, d.get(n, "<absent>"))) for n in names]
-    out += [-4, intern("M:" + ",".join(sorted(n for n in d if n not in SKIP and n not in names)))]
+    # generated methods: names resolvable on the class (own or inherited).  In which class
+    # dictionary a dissolved MethodDescriptor leaves its function depends on the order in which
+    # instances of parent and subclass first touch the helper (eager classes too), not on bootstrapping.
+    vis = set()
+    for k in cls.__mro__:
+        if k is not object:
+            vis.update(k.__dict__)
+    out += [-4, intern("M:" + ",".join(sorted(n for n in vis if n not in SKIP and n not in names)))]
     out += [-5, intern("A:" + ",".join(getattr(cls, "__annotations__", {}))), intern("N:" + new_kind(cls))]
     for meth in ("__init__", "update"):
         try:
